@@ -1,4 +1,5 @@
 import SeqVerif.Model.CollectorLemmas
+import SeqVerif.Model.CollectorReuse
 import SeqVerif.Model.DedupLemmas
 import SeqVerif.Model.DedupConcurrent
 import SeqVerif.Model.C17Compose
@@ -66,6 +67,18 @@ theorem c17_groups (b : Nat) (ms : List Meta) (app : List ID) (lids : List Nat)
   have := group_spec (filter (collect b ms) app) lids hinv hl j hj'
   rw [this, (c17_filter_projection b ms app).1]
   simp [hf.2.2]
+
+/-- **c17_init_fresh.**  The index worker's collector is reused from bulk to bulk.  Whatever its four `ReallocSolver`s
+decide (re-allocate or reuse, any size) and whatever state the previous bulk left, `Init` hands over the collector
+`newMetaDataCollector()` would give: every modelled slice empty, counters reset, the token map empty. -/
+theorem c17_init_fresh (s : RCollector) (d : InitDec) (b : Nat) : initM s d b = ⟨init b, []⟩ := initM_fresh s d b
+
+/-- **c17_reuse_invisible.**  Driving *any* sequence of bulks (any length - also past the 200-sample window of the
+solvers - with or without `Filter`, any solver decisions before each bulk) through ONE collector, with the token map
+as the code keeps it, yields for every bulk exactly what the per-bulk model `collect` / `filter` computes on a fresh
+collector.  This is what lets every other theorem of this file talk about one bulk at a time. -/
+theorem c17_reuse_invisible (s : RCollector) (steps : List Step) : reuseRun s steps = steps.map freshBulk :=
+  reuseRun_fresh s steps
 
 /-- **c17_idempotent.**  For every history of bulks delivered to one active fraction - each bulk a sequence of
 documents with pairwise distinct ids, every document optionally followed by nested metas (`Size = 0`, same id) -
@@ -347,6 +360,23 @@ theorem c17_x_filter_fields :
     filterAssigns = ["c.MaxMID", "c.MinMID", "c.DocsCounter", "c.IDs", "c.Positions", "c.tokensInDocs", "c.tokensIndex"] ∧
     filterSlices = ["c.tokensIndex[tokensOffsets[i] : tokensOffsets[i]+c.tokensInDocs[i]]"] := by decide
 
+/-- `metaDataCollector.Init` resets what the model resets, in both branches of every solver: `ids` (IDs,
+tokensInDocs, Positions), `tokensBuf`, `tokensIndex` (lids, tokensIndex), `tokensValues` (tokensMap re-made or
+cleared, FieldsLengths, TokensValues, tokenLIDsPlaces); and the collector has no field the model does not know
+(a new field kept between bulks needs its reset here) -/
+theorem c17_x_init_resets :
+    initPlain = ["c.nextDocOffset = 0", "c.blockIndex = blockIndex", "c.MaxMID = 0", "c.MinMID = math.MaxUint64",
+      "c.DocsCounter = 0", "c.SizeCounter = 0", "for i := range c.TokensValues { c.TokensValues[i] = nil }",
+      "for i := range c.tokenLIDsPlaces { c.tokenLIDsPlaces[i] = nil }"] ∧
+    initBranches = [
+      "size, need := c.solvers.ids.ReallocParams(len(c.IDs), cap(c.IDs)) ? c.IDs = make([]seq.ID, 0, size); c.tokensInDocs = make([]uint32, 0, size); c.Positions = make([]seq.DocPos, 0, size) : c.IDs = c.IDs[:0]; c.tokensInDocs = c.tokensInDocs[:0]; c.Positions = c.Positions[:0]",
+      "size, need := c.solvers.tokensBuf.ReallocParams(len(c.tokensBuf), cap(c.tokensBuf)) ? c.tokensBuf = make([]byte, 0, size) : c.tokensBuf = c.tokensBuf[:0]",
+      "size, need := c.solvers.tokensIndex.ReallocParams(len(c.tokensIndex), cap(c.tokensIndex)) ? c.lids = make([]uint32, 0, size); c.tokensIndex = make([]int, 0, size) : c.lids = c.lids[:0]; c.tokensIndex = c.tokensIndex[:0]",
+      "size, need := c.solvers.tokensValues.ReallocParams(len(c.TokensValues), cap(c.TokensValues)) ? estimatedMapSize := len(c.tokensMap) * size / len(c.TokensValues); c.tokensMap = make(map[string]int, estimatedMapSize); c.FieldsLengths = make([]int, 0, size); c.TokensValues = make([][]byte, 0, size); c.tokenLIDsPlaces = make([]*TokenLIDs, 0, size) : c.TokensValues = c.TokensValues[:0]; c.FieldsLengths = c.FieldsLengths[:0]; c.tokenLIDsPlaces = c.tokenLIDsPlaces[:0]; clear(c.tokensMap)"] ∧
+    collectorFields = ["nextDocOffset", "blockIndex", "MaxMID", "MinMID", "DocsCounter", "SizeCounter", "tokensBuf",
+      "TokensValues", "FieldsLengths", "tokensMap", "tokenLIDsPlaces", "IDs", "tokensInDocs", "tokensIndex", "Positions",
+      "lids", "solvers"] := ⟨rfl, rfl, rfl⟩
+
 /-- `MergeQPRs` sorts, then removes repetitions, then corrects the total, then cuts to the limit;
 `removeRepetitionsAdvanced` compares ids only -/
 theorem c17_x_merge_order :
@@ -448,6 +478,14 @@ theorem c17_nested_counts_metas_witness :
 /-- modelled as the code is: `Filter` does not touch `SizeCounter`, so `DocsRaw` also counts the bytes of dropped
 repeats (they are in the docs file of the active fraction); not part of the property -/
 example : (run Active.empty exHistory).docsRaw = (21 + 22) + (22 + 23) + (21 + 22) + 22 := by decide
+
+/-- three bulks through one collector, the solvers re-allocating before the second and reusing before the third;
+the second bulk is filtered: the states are those of three fresh collectors (and not empty) -/
+example :
+    let steps : List Step := [⟨⟨none, none, none, none⟩, 0, [exDoc 1, exDoc 2], none⟩,
+      ⟨⟨some 4, some 9, some 4, some 2⟩, 1, [exDoc 2, exDoc 3], some [(103, 3)]⟩, ⟨⟨none, none, none, none⟩, 2, [exDoc 3], some []⟩]
+    (reuseRun RCollector.new steps).map (·.ids) = [[(101, 1), (102, 2)], [(103, 3)], []] ∧
+    (reuseRun RCollector.new steps).map (·.tokensIndex) = [[0, 1, 0, 2], [0, 2], []] := by decide
 
 /-- `Filter` on a partial overlap with different token counts: document 2 (dropped) sits between kept ones -/
 example : rview (filter (collect 4 [exDoc 1, exDoc 2, exDoc 3]) [(101, 1), (103, 3)])
